@@ -14,3 +14,11 @@ package jsonproto
 //@   requires[no-pending-refusal] @C12 !ghost.appendFailed
 //@   ensures[refusal-propagated] @C12 result == nil ==> !ghost.appendFailed
 //@   ensures[alloc-within-limit] @C06 ghost.maxAlloc <= old(ghost.maxAlloc) || ghost.maxAlloc <= socket.messageSizeLimit
+
+// ---- C05: the body is written as JSON string content ---------------------------------
+// (no out-of-range index into the hex digits; the output only grows)
+//@ func appendJSONString
+//@   property C05
+//@   flags safety
+//@   ensures[grows] len(result) >= len(dst) + len(b)
+//@   loop 0: invariant[grows] $idx >= -1 && $idx < len(b) && len(dst) >= old(len(dst)) + $idx + 1
